@@ -216,10 +216,11 @@ theorem block_text_roundtrip (H : Bytes → Bytes) (hH : Hash32 H) (b : Block) (
     (hs : ∀ t ∈ b.txs, NoSCSuffix t) :
     (blockFromText H (blockToText H 3 b)).out =
       .ok (3, ⟨b.header, b.txs.map (fun t => { t with serializedSize := (encTx H t).length })⟩) [] := by
-  unfold blockFromText blockToText
+  unfold blockFromText blockFromTextWith blockToText
   rw [fromText_hex]
   have := block_roundtrip_full H hH b wf hs []
   rw [List.append_nil] at this
+  unfold decBlock at this
   rw [bind_ok this]
   rfl
 
